@@ -725,11 +725,39 @@ fn plumbing_case(cfg: &Config, idx: u64, rng: &mut Rng, out: &mut Local) {
                 _ => {}
             }
         }
-        // a cloned config keeps its deadline
+        // a cloned config keeps its deadline / timeout (and a clone of a clone)
         let mut c = TextDiff::configure();
         c.algorithm(alg).deadline(t_abs);
         let c2 = c.clone();
         run("configure().deadline(t).clone()", &c2, true, false, out);
+        let mut c = TextDiff::configure();
+        c.algorithm(alg).timeout(d);
+        let c3 = c.clone().clone();
+        run("configure().timeout(d).clone().clone()", &c3, false, true, out);
+        // a ZERO timeout is a deadline too (it expires at once): it must reach the algorithm like any other
+        {
+            let mut c = TextDiff::configure();
+            c.algorithm(alg).timeout(Duration::ZERO);
+            vh::set_clock(clock);
+            let t0 = Instant::now();
+            let r = guard(|| c.diff_slices(&ta, &tb).ops().to_vec());
+            let t1 = Instant::now();
+            let probes = vh::probes().0;
+            let seen = vh::last_deadline();
+            vh::set_clock(vh::Clock::Off);
+            out.eval();
+            if r.is_ok() && p > 0 {
+                let ok = matches!(seen, Some(s) if s >= t0 && s <= t1);
+                if probes == 0 || !ok {
+                    out.violation(
+                        "plumbing.builder_order",
+                        format!("timeout(Duration::ZERO): alg={} the configured (immediately expiring) deadline did not reach the algorithm ({} deadline-carrying checks, instant seen lies within the call: {})", alg_name(alg), probes, ok),
+                    );
+                } else {
+                    out.count("zero_timeouts_verified");
+                }
+            }
+        }
     }
     // REAL clock (no virtual clock installed): a diff whose deadline really lies in the past,
     // followed on the same thread by diffs whose deadline lies a year ahead.  The first must
